@@ -9,6 +9,7 @@ import JinjaV.Wire.Macro
 import JinjaV.Wire.Sandbox
 import JinjaV.Wire.Undefined
 import JinjaV.Wire.Path
+import JinjaV.Wire.Native
 
 open JinjaV
 
@@ -24,6 +25,7 @@ def dispatch (line : String) : Sx :=
     | "macro" => Wire.Macro.handle args
     | "sbx" => Wire.Sandbox.handle args
     | "undef" => Wire.Undefined.handle args
+    | "native" => Wire.Native.handle args
     | "path-split" => Wire.Path.handleSplit args
     | "path-join" => Wire.Path.handleJoin args
     | "path-choice" => Wire.Path.handleChoice args
